@@ -145,6 +145,8 @@ def make_env(fs):
 class PersistHarness(_Base):
     """kind: 'system-z' (symbolic base, lazy prefix), 'custom' (symbolic ranks), 'c-rep'."""
 
+    no_sample_validation = True     # no automated replay with the genuine serialisers (partial claim)
+
     def __init__(self, kind, N=2, M=2, prefix=(0,), may_fail=False, label=None, only_impacts=False):
         ops.setup()
         self.kind, self.N, self.M, self.prefix, self.may_fail = kind, N, M, list(prefix), may_fail
